@@ -377,7 +377,7 @@ def run(tier):
     for i, j in itertools.combinations(range(n), 2):
         payloads.append(((i, j), "run", 2))
         if tier != "quick" or (i + j) % 3 == 0:
-            payloads.append(((i, j), "both", 2 if tier != "quick" else 1))
+            payloads.append(((i, j), "both", 2 if (tier != "quick" and 4 <= i <= 13 and 4 <= j <= 13) else 1))
             payloads.append(((i, j), "stale", 1))
     if tier != "quick":
         # triples over the scopes whose values cannot be ordered or mix types (indices 4..13 of the pool)
